@@ -1015,7 +1015,9 @@ func (w *WAL) getEntriesFromFile(filename string, minSequence uint64) ([]*Entry,
 	for {
 		entry, err := reader.ReadEntry()
 		if err != nil {
-			if err == io.EOF {
+			if err == io.EOF || errors.Is(err, io.ErrUnexpectedEOF) {
+				// End of file, possibly in the middle of a record that a
+				// crash cut short
 				break
 			}
 			// Skip corrupted entries but continue reading
